@@ -83,9 +83,9 @@ PLAN = {
         'explanation': 'everything downstream of the Reader sees only peek/prefix/forward/get_mark whose contracts are stated over the ghost text and position and never mention buffer, pointer or chunk sizes; a BOM does not advance the column; CR LF is one break (one character of look-ahead is always buffered)',
     },
     'C08': {
-        'fronts': ['pyvc.fronts.regexes:run'], 'bounded': [],
+        'fronts': ['pyvc.fronts.regexes:run'], 'bounded': ['c08_values.py'],
         'assumptions': ['the languages of str(int), repr(float) after the .0e fix-up and date/datetime.isoformat are ASSUMED (written as regular expressions in pyvc/fronts/regexes.py)',
-                        'the value computed by the converters (int(), float(), datetime) is not under contract yet; utc offsets with seconds are outside the dump-side language (finding F18)',
+                        'the VALUE computed by the int/float/timestamp converters (int(), float(), datetime arithmetic) is outside the verifier: it is compared with an independent reading of the YAML 1.1 type definitions on a finite grid of spellings only (bounded stand-in c08_values.py, never counted as proved); utc offsets with seconds are outside the dump-side language (probe note F18)',
                         "re._parser.parse is trusted to give Python's reading of a pattern; z3's regex solver decides the language queries"],
         'explanation': 'every implicit-resolver pattern, translated from its real source: first-character index complete, language equal to the YAML 1.1 language (documented deviations spelt out), pairwise disjoint; what the representer writes for int/float/bool/null/date/datetime lies in the language of its own type; plain is chosen only when the tag is implicit (choose_scalar_style / process_tag contracts)',
     },
